@@ -107,11 +107,18 @@ Record env := mkEnv { key : cid -> ckey; tgt : sid -> target }.
     [reload_prunes]: a configuration reload drops the map entries that point to an address
       which left the configuration (false for the code as it is: [ConnectionPool::from_config],
       pool.rs:312, only hands the map to the new [ServerPool]s; a mutant used to show that the
-      check notices such pruning). *)
-Record variant := mkVariant { cancel_drop_removes : bool; exit_entry_first : bool; reload_prunes : bool }.
+      check notices such pruning).
+    [cancel_retries]: when the throw-away connection of [Server::cancel] cannot be established the
+      request is kept and delivered later to the (pid, secret, host, port) copied from the map at
+      lookup time (false for the code as it is: server.rs:856-880 [Server::cancel] makes ONE
+      [TcpStream::connect]; on error it logs and returns [Err], nothing is retried and nothing is
+      remembered — lookup and the single delivery attempt are one step; a mutant used to show that
+      the check notices late deliveries). *)
+Record variant := mkVariant { cancel_drop_removes : bool; exit_entry_first : bool; reload_prunes : bool;
+                              cancel_retries : bool }.
 
-Definition v_repaired : variant := mkVariant false true false. (* the code as it is (since 1e593b9) *)
-Definition v_orig : variant := mkVariant true false false.     (* the code before 1e593b9: both defects *)
+Definition v_repaired : variant := mkVariant false true false false. (* the code as it is (since 1e593b9) *)
+Definition v_orig : variant := mkVariant true false false false.     (* the code before 1e593b9: both defects *)
 
 (** The variant the correspondence check runs the implementation against, and the one the
     main theorems of Props.v are stated for.  Change this one definition when /repo changes
@@ -124,11 +131,14 @@ Record state := mkState {
   sv : sid -> loc;
   (* ghost: a CancelDrop removed (or would have removed) this key since the key's owner last
      checked a server out.  Only used to state the guard of the completeness theorem. *)
-  gcancel : ckey -> bool
+  gcancel : ckey -> bool;
+  (* CancelRequests whose connection could not be established and that are still being retried
+     (only with [cancel_retries]; always empty for the code as it is) *)
+  pending : list target
 }.
 
 Definition init : state :=
-  mkState [] (fun _ => mkClient None Running) (fun _ => Idle) (fun _ => false).
+  mkState [] (fun _ => mkClient None Running) (fun _ => Idle) (fun _ => false) [].
 
 Definition updc (f : cid -> client) (c : cid) (x : client) : cid -> client :=
   fun c' => if Nat.eqb c' c then x else f c'.
@@ -156,6 +166,11 @@ Inductive op :=
 | SrvClose (s : sid)                     (* an idle connection is closed (lifetime, idle timeout, ban) *)
 | Cancel (k : ckey)                      (* CancelRequest with key k: lookup (+ contact) *)
 | CancelDrop (k : ckey)                  (* the Client value that served that request is dropped *)
+| CancelRefused (k : ckey)               (* CancelRequest with key k whose throw-away connection to the
+                                            looked-up address cannot be established (server.rs:862-868:
+                                            the one connect fails -> Err): the request is dropped.  With
+                                            the mutant [cancel_retries] the looked-up target is kept. *)
+| DeliverLate                            (* a kept request finally gets through (mutant only) *)
 | Reload (retired : list sid).           (* configuration reload (config.rs:1665 reload_config ->
                                             pool.rs:312 from_config): the pools are rebuilt; the
                                             connections in [retired] belong to a pool that was
@@ -177,6 +192,7 @@ Definition step (E : env) (v : variant) (st : state) (o : op) : state :=
                   (updc (cl st) c (mkClient (Some s) Running))
                   (upds (sv st) s (HeldBy c))
                   (updg (gcancel st) (key E c) false)
+                  (pending st)
       | _, _, _ => st
       end
   | ReleaseNormal c clean =>
@@ -186,6 +202,7 @@ Definition step (E : env) (v : variant) (st : state) (o : op) : state :=
                   (updc (cl st) c (mkClient None Running))
                   (upds (sv st) s (back clean))
                   (gcancel st)
+                  (pending st)
       | _, _ => st
       end
   | Terminate c clean =>
@@ -195,6 +212,7 @@ Definition step (E : env) (v : variant) (st : state) (o : op) : state :=
                   (updc (cl st) c (mkClient None Gone))
                   (upds (sv st) s (back clean))
                   (gcancel st)
+                  (pending st)
       | _, _ => st
       end
   | ExitDropGuard c clean =>
@@ -204,6 +222,7 @@ Definition step (E : env) (v : variant) (st : state) (o : op) : state :=
                   (updc (cl st) c (mkClient (Some s) Exiting))
                   (upds (sv st) s (back clean))
                   (gcancel st)
+                  (pending st)
       | _, _ => st
       end
   | ExitDropClient c =>
@@ -213,18 +232,28 @@ Definition step (E : env) (v : variant) (st : state) (o : op) : state :=
                   (updc (cl st) c (mkClient None Gone))
                   (sv st)
                   (gcancel st)
+                  (pending st)
       | _, _ => st
       end
   | SrvClose s =>
       match sv st s with
-      | Idle => mkState (csm st) (cl st) (upds (sv st) s Closed) (gcancel st)
+      | Idle => mkState (csm st) (cl st) (upds (sv st) s Closed) (gcancel st) (pending st)
       | _ => st
       end
   | Cancel _ => st
   | CancelDrop k =>
       if cancel_drop_removes v
-      then mkState (csm_remove k (csm st)) (cl st) (sv st) (updg (gcancel st) k true)
+      then mkState (csm_remove k (csm st)) (cl st) (sv st) (updg (gcancel st) k true) (pending st)
       else st
+  | CancelRefused k =>
+      if cancel_retries v
+      then match csm_lookup k (csm st) with
+           | Some t => mkState (csm st) (cl st) (sv st) (gcancel st) (pending st ++ [t])
+           | None => st
+           end
+      else st
+  | DeliverLate =>
+      mkState (csm st) (cl st) (sv st) (gcancel st) (tl (pending st))
   | Reload retired =>
       mkState (if reload_prunes v
                then csm_remove_all (keys_at (map (fun s => snd (tgt E s)) retired) (csm st)) (csm st)
@@ -232,6 +261,7 @@ Definition step (E : env) (v : variant) (st : state) (o : op) : state :=
               (cl st)
               (retire_sv (sv st) retired)
               (gcancel st)
+              (pending st)
   end.
 
 Definition run (E : env) (v : variant) (ops : list op) : state := fold_left (step E v) ops init.
@@ -242,11 +272,18 @@ Inductive outcome := Silent | Contact (t : target).
 Definition cancel_out (st : state) (k : ckey) : outcome :=
   match csm_lookup k (csm st) with Some t => Contact t | None => Silent end.
 
-(** Observable trace of a schedule: the outcome of every [Cancel] op, in order. *)
+(** What arrives at a backend when a kept request finally gets through. *)
+Definition late_out (st : state) : outcome :=
+  match pending st with t :: _ => Contact t | [] => Silent end.
+
+(** Observable trace of a schedule: what reaches a backend for every [Cancel] (at once), every
+    [CancelRefused] (nothing) and every [DeliverLate], in order. *)
 Fixpoint outcomes_from (E : env) (v : variant) (st : state) (ops : list op) : list outcome :=
   match ops with
   | [] => []
   | Cancel k :: r => cancel_out st k :: outcomes_from E v (step E v st (Cancel k)) r
+  | CancelRefused k :: r => Silent :: outcomes_from E v (step E v st (CancelRefused k)) r
+  | DeliverLate :: r => late_out st :: outcomes_from E v (step E v st DeliverLate) r
   | o :: r => outcomes_from E v (step E v st o) r
   end.
 Definition outcomes (E : env) (v : variant) (ops : list op) : list outcome := outcomes_from E v init ops.
